@@ -64,6 +64,9 @@ var matchSt = &matchState{}
 // like any other for the router); the served pass sends them as URL.RawPath. Parameters are the escaped substrings.
 var matchEncoded = os.Getenv("VERIF_MATCH_ENCODED") == "1"
 
+// VERIF_MATCH_STRICT=1: the routers use StrictLastSlash; the model takes paths literally, which is what strict routers do
+var matchStrict = os.Getenv("VERIF_MATCH_STRICT") == "1"
+
 func init() {
 	families["match"] = &family{replay: matchReplay, finish: matchFinish}
 }
@@ -196,7 +199,7 @@ func matchRunTable(st *matchState, t matchTable) {
 	}
 	mk := func(name string, passes int, opts ...func(*rux.Router)) *built {
 		b := &built{name: name, passes: passes}
-		if st.hdr.Strict {
+		if st.hdr.Strict || matchStrict {
 			opts = append(opts, rux.StrictLastSlash)
 		}
 		if matchEncoded {
@@ -293,7 +296,7 @@ func matchRunTable(st *matchState, t matchTable) {
 								got = -1
 							}
 						}
-						if got == want && b.name == "plain" && !st.hdr.Strict && !matchEncoded && path != "/" {
+						if got == want && b.name == "plain" && !st.hdr.Strict && !matchStrict && !matchEncoded && path != "/" {
 							// the same request spelled with a doubled leading slash or a trailing slash (lookup normalises both away)
 							for _, alt := range []string{"/" + path, path + "/", "//" + path + "//"} {
 								var r2 *rux.Route
@@ -345,6 +348,43 @@ func matchRunTable(st *matchState, t matchTable) {
 								"what": fmt.Sprintf("%s %s -> %s (%s, pass %d): params %v not among the decompositions %v", m, path, texts[want-1], b.name, pass+1+2*sweep, ps, allowed)}, caseDoc)
 						}
 					}
+				}
+			}
+		}
+	}
+	// HEAD first: on a caching router whose cache is still cold, a HEAD request for a GET route (twice: fallback, then
+	// whatever the first one left behind) gets the route's parameters both times
+	headIn := false
+	for _, m := range st.hdr.Methods {
+		headIn = headIn || m == "HEAD"
+	}
+	if !headIn {
+		hb := mk("head-first-cache", 1, rux.EnableCaching)
+		for _, h := range t.Hits["GET"] {
+			q, want := h[0], h[1]
+			if want <= 0 || q >= len(st.paths) {
+				continue
+			}
+			allowed := st.mat[t.T[want-1].P][q]
+			for pass := 1; pass <= 2; pass++ {
+				var ps rux.Params
+				var rt *rux.Route
+				func() {
+					defer func() { _ = recover() }()
+					rt, ps, _ = hb.r.Match("HEAD", st.paths[q])
+				}()
+				compared++
+				okp := rt != nil
+				if okp {
+					okp = false
+					for _, bnd := range allowed {
+						okp = okp || paramsEqual(ps, bnd)
+					}
+				}
+				if !okp {
+					st.report(map[string]any{"kind": "params", "aspect": "params", "table": texts, "method": "HEAD", "path": st.paths[q], "router": hb.name, "pass": pass,
+						"what": fmt.Sprintf("HEAD %s on %v (cold cache, pass %d): route found=%v params %v, expected the GET route %s with one of %v", st.paths[q], texts, pass, rt != nil, ps, texts[want-1], allowed)}, caseDoc)
+					break
 				}
 			}
 		}
